@@ -207,6 +207,15 @@ def run(c):
             return {"entries": r.sample(fl_c, r.randint(0, 2)), "root": False}
         cc.append({"id": len(cc), "kind": "cascade", "dir": farm, "W": pick2(), "R": pick2(), "S": pick2(), "B": pick2(), "path": farm + "/flip/f",
                    "relink": [farm + "/flip", r.choice(["t1", "t2", "t1", "t2", "nowhere"])]})
+    # names under /proc that belong to OTHER processes against entries that speak of /proc/self (and the other way round): a set
+    # entry covers the names it spells, whoever asks
+    pr_c = ["/proc/self/exe", "/proc/self/*", "/proc/self/", "/proc/self/status", "/proc/1/status", "/proc/*", "/proc/%d/*" % os.getppid()]
+    pr_n = ["/proc/1/exe", "/proc/1/status", "/proc/1/maps", "/proc/1", "/proc/%d/status" % os.getppid(), "/proc/%d/exe" % os.getppid(),
+            "/proc/self/status", "/proc/self/exe", "/proc/4194000/status", "/proc/1/task/1/status", "/proc/uptime", "/proc/12/../1/status"]
+    for i in range(120 if c.quick() else 900):
+        def pick3():
+            return {"entries": r.sample(pr_c, r.randint(0, 2)), "root": False}
+        cc.append({"id": len(cc), "kind": "cascade", "dir": farm, "W": pick3(), "R": pick3(), "S": pick3(), "B": pick3(), "path": r.choice(pr_n)})
     co = c.run_harness(exe, cc)
     items = []
     for x, o in zip(cc, co):
